@@ -142,8 +142,11 @@ class C12(Check):
     theorems = ["Pox.C12.port_guards", "Pox.C12.flood_excludes_ingress", "Pox.C12.counters_exact", "Pox.C12.actions_spec",
                 "Pox.C12.checksums_ok", "Pox.C12.rx_spec", "Pox.C12.rx_obj_spec", "Pox.C12.port_mod_spec",
                 "Pox.C12.enqueue_d7_defect", "Pox.C12.table_recount_d8_defect", "Pox.C12.vlan_pcp_c121_defect"]
-    anchors = [("pox/datapaths/switch.py", 362, 391), ("pox/datapaths/switch.py", 470, 545), ("pox/datapaths/switch.py", 579, 700),
-               ("pox/datapaths/switch.py", 736, 757), ("pox/datapaths/switch.py", 855, 930)]
+    _SW = "pox/datapaths/switch.py"
+    anchors = [("pox/datapaths/switch.py", "SoftwareSwitchBase." + n) for n in (
+        "_rx_port_mod", "rx_packet", "_lookup_packet", "_set_port_config_bit", "_output_packet", "_process_actions_for_packet",
+        "_action_output", "_action_set_vlan_vid", "_action_set_vlan_pcp", "_action_strip_vlan", "_action_set_dl_src", "_action_set_dl_dst",
+        "_action_set_nw_src", "_action_set_nw_dst", "_action_set_nw_tos", "_action_set_tp_src", "_action_set_tp_dst", "_action_enqueue")]
     design_ref = "DESIGN.md §5 C12"
     technique = ("Lean 4 proof (induction over action lists and operation histories of an executable model of the switch data path, "
                  "refinement to a declarative specification built on the C14 header/checksum theorems) + differential correspondence "
@@ -170,29 +173,46 @@ class C12(Check):
     coverage_cases = 4000
     search_budget = {"quick": 3000, "thorough": 30000}
 
-    ANCHOR_FUNCS = ("_rx_port_mod", "rx_packet", "_lookup_packet", "_set_port_config_bit", "_output_packet", "_process_actions_for_packet")
+    # Which of the repairs D7 / D8 / C12-1 / C12-2 the tree under test has is read off the source: the statement that matters is
+    # pattern-matched in its function (flag True = the unrepaired line, as in Model/Actions.lean `Variant`).  A shape that is neither
+    # is not guessed: the repaired variant is assumed and the correspondence run reports what differs.
+    VARIANT_SHAPES = {
+        "d7": ("_action_enqueue", {True: "self._output_packet(packet, action.tp_port, in_port)", False: "self._output_packet(packet, action.port, in_port)"}),
+        "d8": ("_output_packet", {True: "self.rx_packet(packet, in_port)", False: "self._lookup_packet(packet, in_port)"}),
+        "c121": ("_action_set_vlan_pcp", {True: "packet.payload.pcp = action.vlan_pcp", False: "packet.payload.pcp = action.vlan_pcp & 7"}),
+        "c122": ("_action_strip_vlan", {True: "if isinstance(packet.payload, vlan):", False: "if isinstance(packet.payload, vlan) and packet.payload.payload is not None:"})}
 
-    def _anchors_from_ast(self):
-        """line ranges of the anchored functions' bodies in the tree under test (the static ranges above drift with every fix)"""
+    def detect_variant(self):
         import ast
-        path = os.path.join(common.REPO, "pox/datapaths/switch.py")
-        out = []
-        for cls in [n for n in ast.parse(open(path).read()).body if isinstance(n, ast.ClassDef) and n.name == "SoftwareSwitchBase"]:
-            for fn in cls.body:
-                if isinstance(fn, ast.FunctionDef) and (fn.name in self.ANCHOR_FUNCS or fn.name.startswith("_action_")):
-                    body = [b for b in fn.body if not (isinstance(b, ast.Expr) and isinstance(getattr(b, "value", None), ast.Constant))]
-                    if body: out.append(("pox/datapaths/switch.py", body[0].lineno, fn.end_lineno))
-        return out
+        tree = ast.parse(open(os.path.join(common.REPO, self._SW)).read())
+        cls = [n for n in tree.body if isinstance(n, ast.ClassDef) and n.name == "SoftwareSwitchBase"][0]
+        fns = {f.name: f for f in cls.body if isinstance(f, ast.FunctionDef)}
+        out, notes = {}, []
+        for flag, (fn, shapes) in self.VARIANT_SHAPES.items():
+            lines = set()
+            if fn in fns:
+                for n in ast.walk(fns[fn]):
+                    if isinstance(n, ast.stmt): lines.add(ast.unparse(n).split("\n")[0].strip())
+            hits = [k for k, shape in shapes.items() if shape in lines]
+            if len(hits) == 1: out[flag] = hits[0]
+            else:
+                out[flag] = False; notes.append("%s: %s has neither known shape" % (flag, fn))
+        return out, notes
 
     def setup(self):
-        try: self.anchors = self._anchors_from_ast() or self.anchors
-        except Exception: pass
+        self.variant, self.variant_notes = self.detect_variant()
+        un = [x.strip() for x in os.environ.get("C12_UNREPAIRED", "").split(",") if x.strip()]     # manual override
+        for k in un: self.variant[k] = True
+        for n in self.variant_notes: common.log("C12 variant detection: " + n)
         poxenv.boot()
         import swnet, pox.openflow.libopenflow_01 as of
         from pox.lib.addresses import EthAddr, IPAddr
         from pox.datapaths.switch import DpPacketOut
         from pox.lib.packet.ethernet import ethernet
         self.swnet, self.of, self.EthAddr, self.IPAddr, self.DpPacketOut, self.ethernet = swnet, of, EthAddr, IPAddr, DpPacketOut, ethernet
+
+    def extra_evidence(self):
+        return {"code_variant": {k: ("unrepaired" if v else "repaired") for k, v in self.variant.items()}, "variant_notes": self.variant_notes}
 
     # ------------------------------------------------------------------ implementation side
     def hw(self, no):
@@ -293,10 +313,7 @@ class C12(Check):
     def model_request(self, case):
         if case.get("oracle_only"): return None
         ports = [{"no": i, "hw": self.hw(i).hex(), "config": PC_NO_STP, "state": 0} for i in range(1, case.get("nports", NPORTS) + 1)]
-        # the model follows the repaired code; C12_UNREPAIRED=d7,d8,c121 selects the unrepaired lines instead (for a tree in
-        # which a proposed fix was not taken and the defect is listed as a known finding)
-        un = [x.strip() for x in os.environ.get("C12_UNREPAIRED", "").split(",")]
-        return {"var": {"d7": "d7" in un, "d8": "d8" in un, "c121": "c121" in un}, "ports": ports, "ops": case["ops"]}
+        return {"var": dict(self.variant), "ports": ports, "ops": case["ops"]}
 
     def model_obs(self, case, resp):
         if "error" in resp: return resp
